@@ -2,9 +2,10 @@ INIT Init
 NEXT Next
 CONSTANTS
   LeafChoice = "small"
-  Steps = 0
-  EmitScripts = FALSE
-  Thin = FALSE
-INVARIANT StepsAllowed
+  Steps = 2
+  EmitScripts = TRUE
+  Thin = TRUE
+INVARIANT SessionEquivalent
+CONSTRAINT Emit
 POSTCONDITION Count
 CHECK_DEADLOCK FALSE
